@@ -33,8 +33,8 @@ ASSUMPTIONS = ["network, clock, executor and event loop are simulated (sim/); Cl
                "invariants are evaluated at quiescent points (no runnable virtual thread at the current virtual time); "
                "pool presence is evaluated after >= 1.5 s of quiet time and at the end",
                "connection attempts take no virtual time (connect races are C45's subject)",
-               "Cluster.sessions (a WeakSet iterated in memory-address order) is replaced by an insertion-ordered set so that a "
-               "case replays identically"]
+               "Cluster.sessions (a WeakSet iterated in memory-address order) is replaced by an insertion-ordered set and executor futures hash by creation number "
+               "(the driver keeps them in sets and blocks on whichever the set yields first) so that a case replays identically"]
 
 ADV = [0.05, 0.15, 0.3, 1.0, 1.5, 3.0]
 
@@ -188,6 +188,7 @@ def _run(case, ctx, sim):
     cluster = sim.make_cluster(addrs[:1], execution_profiles=S.separate_profiles(prof, lambda: S.plan_policy(distances=dist)),
                                reconnection_policy=ConstantReconnectionPolicy(1.0, max_attempts=None))
     S.deterministic_sessions(cluster)
+    S.deterministic_futures(sim)
     cluster.register_listener(S.recording_listener(lis_log, clock=lambda: world.now))
     premature = []      # (kind, address, session index): listeners told "up"/"added" while a session has no live pool
 
